@@ -8,6 +8,8 @@
 import LiteFSVerif.Proofs.Frames
 import LiteFSVerif.Proofs.Chunk
 import LiteFSVerif.Gen.Facts
+import LiteFSVerif.Gen.Skel
+import LiteFSVerif.Model.ExpectedSkel
 
 namespace LiteFSVerif.C18
 open LiteFSVerif LiteFSVerif.Frames LiteFSVerif.Chunk
@@ -119,5 +121,14 @@ example : (Frame.ltx 12345 [100, 98]).WF ∧ (Frame.hwm (2 ^ 64 - 1) []).WF := b
   simp [Frame.WF]
 example : decodeFrame (encodeFrame (.ltx 258 [100, 98]) ++ [9]) = .ok (.ltx 258 [100, 98]) [9] :=
   C18_frame_roundtrip _ (by simp [Frame.WF]) _
+
+/-- the control skeletons (branch conditions, loop heads, returns, order of calls and of state
+    assignments) of `Writer.Write`, `Reader.Read`, regenerated from the current source on every run, are the ones the
+    model was written and validated against (Model/ExpectedSkel.lean): a reordered, dropped or
+    altered check or call in these functions breaks this theorem -/
+theorem C18_source_skeletons :
+    Gen.Skel.Writer_Write = Expected.Skel.Writer_Write ∧
+    Gen.Skel.Reader_Read = Expected.Skel.Reader_Read :=
+  ⟨rfl, rfl⟩
 
 end LiteFSVerif.C18
